@@ -67,8 +67,8 @@ def cases(tier, rng, dist):
         n = rng.randint(3, 7)
         gg = [0, 1] + [rng.randrange(2) for _ in range(n - 2)]; rng.shuffle(gg)     # both labels present (mean_diff needs two groups)
         yield {"f": "restrat", "g": gg, "s1": [rng.randint(0, 2) for _ in range(n)], "s2": [rng.randint(0, 2) for _ in range(n)],
-               "mode": rng.choice(["edit_in_place", "edit_in_place", "rebind", "shared_randomizer"]), "first": rng.choice(["randomize", "sim_npc", "wy"]),
-               "aseed": rng.randint(0, 10**9)}
+               "mode": rng.choice(["edit_in_place", "edit_in_place", "rebind", "shared_randomizer", "shared_randomizer"]), "first": rng.choice(["randomize", "sim_npc", "wy"]),
+               "rand": rng.choice(["strata", "strata", "group"]), "g_other": [rng.choice([5, 6, 6]) for _ in range(n)], "aseed": rng.randint(0, 10**9)}
     for s in range(6 if tier == "quick" else 30):
         yield {"f": "repro", "seed": 100 + s, "strat": bool(s % 2)}
 
@@ -109,7 +109,8 @@ def run_restrat(c):
     import random as _r
     n = len(c["g"])
     t = Tape(None, lazy(_r.Random(c["aseed"]), "random"))
-    R = Experiment.Randomizer(randomize=NPC.randomize_in_strata, seed=t)
+    rfn = NPC.randomize_group if c.get("rand") == "group" else NPC.randomize_in_strata
+    R = Experiment.Randomizer(randomize=rfn, seed=t)
     resp = [[float(i)] for i in range(n)]
     e = Experiment(group=list(c["g"]), response=resp, covariate=[[v, 7] for v in c["s1"]], randomizer=R)
     tests = Experiment.make_test_array(Experiment.TestFunc.mean_diff, [0])
@@ -128,15 +129,20 @@ def run_restrat(c):
     elif c["mode"] == "rebind":
         e.covariate = np.array([[v, 7] for v in c["s2"]]); target = e
     else:
-        target = Experiment(group=list(g1), response=resp, covariate=[[v, 7] for v in c["s2"]], randomizer=R)
+        # a second Experiment (other labels, other strata) that shares the Randomizer object
+        start2 = list(g1) if c.get("rand") != "group" else list(c.get("g_other", g1))
+        target = Experiment(group=start2, response=resp, covariate=[[v, 7] for v in c["s2"]], randomizer=R)
+    start = [int(v) for v in target.group]
     r2 = guarded(lambda: target.randomize(in_place=True))
     g2 = [int(v) for v in target.group]
+    first_after = [int(v) for v in e.group]
     window = [a for (_, a) in t.log[k0:]]
     # reference: a fresh Experiment in the same state (assignment g1, strata s2) with a replay generator holding the window
     t3 = Tape(list(window))
-    ref = Experiment(group=list(g1), response=resp, covariate=[[v, 7] for v in c["s2"]], randomizer=Experiment.Randomizer(randomize=NPC.randomize_in_strata, seed=t3))
+    ref = Experiment(group=list(start), response=resp, covariate=[[v, 7] for v in c["s2"]], randomizer=Experiment.Randomizer(randomize=rfn, seed=t3))
     r3 = guarded(lambda: ref.randomize(in_place=True))
-    return {"r": [list(r1)[:2], list(r2)[:2], list(r3)[:2]], "g1": g1, "g2": g2, "ref": [int(v) for v in ref.group], "left": len(t3.answers), "window": window}
+    return {"r": [list(r1)[:2], list(r2)[:2], list(r3)[:2]], "g1": g1, "g2": g2, "ref": [int(v) for v in ref.group], "left": len(t3.answers), "window": window, "start": start,
+            "first_after": first_after if target is not e else None}
 
 
 def run(c):
@@ -316,8 +322,16 @@ def oracle_restrat(c, o):
     if any(r[0] != "ok" for r in o["r"][:2]):
         _v = emit({"why": f"randomization raised {o['r']}", "cls": "experiment:raises"})
         if _v: return _v
-    for k in set(c["s2"]):
-        a = sorted(o["g1"][i] for i in range(len(c["s2"])) if c["s2"][i] == k); b = sorted(o["g2"][i] for i in range(len(c["s2"])) if c["s2"][i] == k)
+    if o.get("first_after") is not None and o["first_after"] != o["g1"]:
+        _v = emit({"why": f"randomizing a second Experiment that shares the Randomizer changed the FIRST Experiment's assignment from {o['g1']} to {o['first_after']} (second: {o.get('start')} -> {o['g2']})",
+                   "cls": "experiment:labels-not-conserved"})
+        if _v: return _v
+    base = o.get("start", o["g1"])
+    if sorted(base) != sorted(o["g2"]):
+        _v = emit({"why": f"randomization turned {base} into {o['g2']}: not a rearrangement of the labels", "cls": "experiment:labels-not-conserved"})
+        if _v: return _v
+    for k in (set(c["s2"]) if c.get("rand") != "group" else []):
+        a = sorted(base[i] for i in range(len(c["s2"])) if c["s2"][i] == k); b = sorted(o["g2"][i] for i in range(len(c["s2"])) if c["s2"][i] == k)
         if a != b:
             _v = emit({"why": f"after the strata were changed to {c['s2']} ({c['mode']}; earlier strata {c['s1']}, first call {c['first']}), randomize_in_strata turned {o['g1']} into {o['g2']}: labels moved between the current strata",
                        "cls": "experiment:strata-violated"})
@@ -465,7 +479,9 @@ def to_coq(c, o):
         if any(r[0] != "ok" for r in o["r"][:2]):
             return None
         n = len(c["g"])
-        e = (f"{{| group := {clist(o['g1'])}; response := {clist([[Fraction(i)] for i in range(n)], lambda r: qlist(r))}; strata := Some {clist(c['s2'])}; "
+        if c.get("rand") == "group":
+            return None
+        e = (f"{{| group := {clist(o.get('start', o['g1']))}; response := {clist([[Fraction(i)] for i in range(n)], lambda r: qlist(r))}; strata := Some {clist(c['s2'])}; "
              f"kind := Strat; gen := {clist(o['window'], cnat)} |}}")
         return f"History {e} [(Randomize true None [])] [(Step {clist(o['g2'])} (OGroup {clist(o['g2'])}))]"
     if f != "history":
